@@ -3,7 +3,7 @@
     What is proved here (for all inputs / states / histories of the site models of
     Model/Totality.v): which internal invariant each [unwrap] / [expect] / index / slice /
     checked subtraction / [unreachable!] of norad's own code relies on, that the public API
-    maintains it — or, for four sites, a witness history that breaks it together with the
+    maintains it — or, for two sites, a witness history that breaks it together with the
     theorem under the exact extra hypothesis — and that norad's own loops terminate.
     What is NOT proved (searched by the harness, labelled as testing): panics, aborts and hangs
     inside quick-xml / plist / serde / std on arbitrary bytes, stack depth, allocation failure.
@@ -16,13 +16,10 @@ Open Scope N_scope.
 
 (** * The full statement, and why it does not hold of the code as it is *)
 
-(** "no API history reaches a panic site of the layer container / of Layer::save; no layer
-    directory name and no image file name accepted by the API reaches one" *)
+(** "no API history reaches a panic site of the layer container / of Layer::save" *)
 Definition C03_full : Prop :=
   (forall name_ok fresh ops s site, lc_inv s -> lrun name_ok fresh s ops <> Panic site) /\
-  (forall name_ok ops s site, lay_inv s -> bind (grun name_ok s ops) lay_save <> Panic site) /\
-  (forall base dir site, layer_dir_name base dir <> Panic site) /\
-  (forall p site, image_new p = Ok p -> image_to_event p <> Panic site).
+  (forall name_ok ops s site, lay_inv s -> bind (grun name_ok s ops) lay_save <> Panic site).
 
 Theorem C03_refuted_layer_slot_assign : exists ops,
   lrun (fun _ => true) (fun n _ => [103;46] ++ n) lc_default ops = Panic SITE_INDEX.
@@ -31,12 +28,6 @@ Proof. exact lrun_assign_refuted. Qed.
 Theorem C03_refuted_entry_remove : exists ops,
   bind (grun (fun _ => true) {| glyphs := []; contents := [] |} ops) lay_save = Panic SITE_UNWRAP.
 Proof. exact grun_entry_remove_refuted. Qed.
-
-Theorem C03_refuted_layer_dir_dotdot : exists base dir, layer_dir_name base dir = Panic SITE_UNWRAP.
-Proof. exact layer_dir_name_refuted. Qed.
-
-Theorem C03_refuted_image_non_utf8 : exists p, image_new p = Ok p /\ image_to_event p = Panic SITE_UNWRAP.
-Proof. exact image_non_utf8_refuted. Qed.
 
 Theorem C03_refuted : ~ C03_full.
 Proof. exact C03_full_refuted. Qed.
@@ -69,14 +60,23 @@ Proof. split; [apply lay_loaded_inv|repeat constructor]. Qed.
 Theorem C03_rename_glyph_no_panic : forall name_ok s a b ow site, rename_glyph name_ok s a b ow <> Panic site.
 Proof. exact rename_glyph_no_panic. Qed.
 
-(** Layer::load_impl's file_name().unwrap(): fine exactly when the directory ends in a name *)
-Theorem C03_layer_dir_name_ok : forall base dir n, (exists pre, dir = pre ++ [Normal n]) -> layer_dir_name base dir = Ok n.
-Proof. exact layer_dir_name_ok. Qed.
-
-Theorem C03_image_utf8_ok : forall p site, os_utf8 p = true -> image_to_event p <> Panic site.
-Proof. exact image_utf8_ok. Qed.
-
 (** * Sites that are unreachable outright *)
+
+(** Layer::load_impl's file_name().unwrap(): LayerContents::load lets only plain directory names
+    through (a single normal component), for every base directory and every entry (repaired by
+    8d15b4b: before, a directory ending in `..` reached the unwrap) *)
+Theorem C03_load_layer_dir_no_panic : forall base dir site, load_layer_dir base dir <> Panic site.
+Proof. exact load_layer_dir_no_panic. Qed.
+Example C03_layer_dir_guard_needed : layer_dir_name [Normal 1] [ParentDir] = Panic SITE_UNWRAP.
+Proof. exact layer_dir_name_guard_needed. Qed.
+
+(** Image::to_event's to_str().expect: Image::new is the only constructor and rejects a file
+    name that is not valid Unicode (repaired by 2bd9911) *)
+Theorem C03_image_to_event_ok : forall p q site, image_new p = Ok q -> image_to_event q <> Panic site.
+Proof. exact image_new_to_event_ok. Qed.
+Example C03_image_new_rejects_non_utf8 :
+  image_new {| os_utf8 := false; os_empty := false; os_absolute := false; os_has_parent := false |} = Err PathNotUnicode.
+Proof. exact image_new_rejects_non_utf8. Qed.
 
 (** user_name_to_file_name (public: any name, prefix, suffix, stateful closure): the only panic
     is the documented one after 99 clashes; neither back-off loop underflows or runs for ever *)
